@@ -37,7 +37,8 @@ fn c_pool() -> Box<dyn Contract<Empty>> {
             pool_manager::contract::instantiate,
             pool_manager::contract::query,
         )
-        .with_reply(pool_manager::contract::reply),
+        .with_reply(pool_manager::contract::reply)
+        .with_migrate(pool_manager::contract::migrate),
     )
 }
 fn c_farm() -> Box<dyn Contract<Empty>> {
@@ -47,7 +48,8 @@ fn c_farm() -> Box<dyn Contract<Empty>> {
             farm_manager::contract::instantiate,
             farm_manager::contract::query,
         )
-        .with_reply(farm_manager::contract::reply),
+        .with_reply(farm_manager::contract::reply)
+        .with_migrate(farm_manager::contract::migrate),
     )
 }
 fn c_epoch() -> Box<dyn Contract<Empty>> {
@@ -55,14 +57,14 @@ fn c_epoch() -> Box<dyn Contract<Empty>> {
         epoch_manager::contract::execute,
         epoch_manager::contract::instantiate,
         epoch_manager::contract::query,
-    ))
+    ).with_migrate(epoch_manager::contract::migrate))
 }
 fn c_fee() -> Box<dyn Contract<Empty>> {
     Box::new(ContractWrapper::new(
         fee_collector::contract::execute,
         fee_collector::contract::instantiate,
         fee_collector::contract::query,
-    ))
+    ).with_migrate(fee_collector::contract::migrate))
 }
 
 pub const DAY: u64 = 86400;
@@ -165,7 +167,7 @@ impl Sys {
                 },
                 &[],
                 "epoch",
-                None,
+                Some(owner.to_string()),
             )
             .unwrap();
         let f_id = app.store_code(c_fee());
@@ -176,7 +178,7 @@ impl Sys {
                 &mantra_dex_std::fee_collector::InstantiateMsg {},
                 &[],
                 "fee",
-                None,
+                Some(owner.to_string()),
             )
             .unwrap();
         let fm_id = app.store_code(c_farm());
@@ -199,7 +201,7 @@ impl Sys {
                 },
                 &[],
                 "farm",
-                None,
+                Some(owner.to_string()),
             )
             .unwrap();
         let pm_id = app.store_code(c_pool());
@@ -214,7 +216,7 @@ impl Sys {
                 },
                 &[],
                 "pool",
-                None,
+                Some(owner.to_string()),
             )
             .unwrap();
         app.execute_contract(
@@ -409,6 +411,18 @@ pub fn install_panic_hook() {
 }
 /// run `f`; a panic inside the code under test is returned as Err("panic: ..")
 impl Sys {
+    /// stores fresh code of contract `code` ("pm", "fm", "em", "fc") and asks the chain to migrate contract `c` to it, as `sender`
+    pub fn try_migrate(&mut self, c: &str, code: &str, sender: &Addr) -> Result<(), String> {
+        let id = self.app.store_code(match code { "pm" => c_pool(), "fm" => c_farm(), "em" => c_epoch(), _ => c_fee() });
+        let target = match c { "pm" => self.pool.clone(), "fm" => self.farm.clone(), "em" => self.epoch.clone(), _ => self.fee.clone() };
+        let app = &mut self.app;
+        let sender = sender.clone();
+        match guarded(std::panic::AssertUnwindSafe(|| app.migrate_contract(sender, target, &Empty {}, id))) {
+            Ok(Ok(_)) => Ok(()),
+            Ok(Err(e)) => Err(format!("{:#}", e.root_cause())),
+            Err(p) => Err(format!("panic: {p}")),
+        }
+    }
     /// a second farm manager with the given configuration (instantiate validation, DESIGN 9.9)
     #[allow(clippy::too_many_arguments)]
     pub fn try_instantiate_farm(&mut self, max_farms: u32, min_unlock: u64, max_unlock: u64, expiration: u64, penalty: Decimal) -> Result<Addr, String> {
